@@ -52,7 +52,8 @@ def reader(loader):
             src = ast.unparse(st)
             if "update_peaks_bounded" in src and not isinstance(st, (ast.For, ast.If)):
                 seq.append("search")
-            if "valid_window_boolean_mask" in src or "valid_peak_boolean_mask" in src:
+            installs = [s for s in ast.walk(st) if isinstance(s, ast.Assign) and isinstance(s.targets[0], ast.Attribute) and s.targets[0].attr.endswith("boolean_mask")]
+            if installs:          # statements that install a mask on an object (reading the stored lists, e.g. for their lengths, installs nothing)
                 seq.append("masks")
                 plain = all(isinstance(s, ast.Assign) for s in ast.walk(st) if isinstance(s, (ast.Assign, ast.AugAssign)) and "boolean_mask" in ast.unparse(s.targets[0] if isinstance(s, ast.Assign) else s.target))
                 out.append((f"reader[{which}]: the stored masks are installed by plain assignment (the file's state, not a combination with the fresh search)", plain, src[:120]))
